@@ -186,6 +186,7 @@ func permPart(t *testing.T, run *ev.Run) {
 	}
 	for _, st := range stages {
 		permStage(t, run, st)
+		permSequences(t, run, st)
 	}
 }
 
